@@ -47,7 +47,7 @@ def build_cmd(kind, k):
             "q24": lambda: dg.QueryDeviceStatus(DeviceShort(k)), "c24": lambda: dg.IdentifyDevice(DeviceShort(k))}[kind]()
 
 
-def make_world(driver, callers_spec, mode="plain", dup=False):
+def make_world(driver, callers_spec, mode="plain", dup=False, exc_on=True):
     """callers_spec: list of (kind, outcome)."""
     def make():
         table = {}
@@ -89,7 +89,7 @@ def make_world(driver, callers_spec, mode="plain", dup=False):
                 callers.append(Caller(f"c{i + 1}", co, cancellable=(mode == "cancelmid" and i == 1)))
         if driver in ("tridonic", "hasseb"):
             from dalimc.aio.hidworld import HidWorld
-            w = HidWorld(driver, bus, callers)
+            w = HidWorld(driver, bus, callers, exceptions_on_send=exc_on)
             w.dup = dup
             w.reorder_reports = not dup       # (the duplicate report of the firmware quirk belongs to a LATER bus frame: it cannot overtake)
         else:
@@ -461,13 +461,16 @@ def shards(tier):
             out.append(("cancelmid", drv, tr, 1 if tier == "quick" else 2))
         for tr in (("num", "num", "num"), ("num", "off", "num"), ("dt", "num", "yn"), ("yn", "twice", "num")):
             out.append(("seq", drv, tr, 2 if tier == "quick" else 3))
+    for drv in ("tridonic", "hasseb"):
+        for kind in ("num", "off", "q24", "c24", "dt"):
+            out.append(("noexc", drv, kind, 1 if tier == "quick" else 2))
     out.append(("dup", 2 if tier == "quick" else 3))
     out.append(("sync",))
     return out
 
 
-def _explore(res, driver, spec, mode, bound, dup=False):
-    mk = make_world(driver, spec, mode, dup)
+def _explore(res, driver, spec, mode, bound, dup=False, exc_on=True):
+    mk = make_world(driver, spec, mode, dup, exc_on)
     outs = set()
     for ch, got in explore(lambda c: execute(mk, c), bound):
         w, obs = got
@@ -478,6 +481,7 @@ def _explore(res, driver, spec, mode, bound, dup=False):
         res["transitions"] += len(w.trace)
     for v in res["violations"]:
         v["case"].setdefault("bound", bound)
+        v["case"].setdefault("exc_on", exc_on)
     return outs
 
 
@@ -505,6 +509,13 @@ def run_shard(shard):
         for oc in ((("value", 1), ("value", 2), ("value", 3)), (("none",), ("value", 9), ("value", 0x42))):
             outs |= {(tr, oc, o) for o in _explore(res, drv, list(zip(tr, oc)), "cancelmid", bound)}
         sample(res, {"driver": drv, "middle_caller_cancelled": list(tr), "bound": bound})
+    elif k == "noexc":
+        # exceptions switched off (transparent retry after a loss): everything else must be as before - in particular a
+        # frame the gateway cannot carry is still REFUSED, not retried for ever
+        _, drv, kind, bound = shard
+        for out in (("value", 0x42), ("none",)):
+            outs |= {(kind, out, o) for o in _explore(res, drv, [(kind, out)], "plain", bound, exc_on=False)}
+        sample(res, {"driver": drv, "exceptions_off": kind, "bound": bound})
     elif k == "seq":
         _, drv, tr, bound = shard
         for oc in ((("value", 0x11), ("value", 0x22), ("none",)), (("none",), ("value", 9), ("value", 0x42)), (("value", 1), ("none",), ("value", 3))):
@@ -580,7 +591,7 @@ def replay(case):
         return [v for v in run_shard(("sync",))["violations"] if v["case"]["driver"] == drv and v["case"]["spec"] == case["spec"]
                 and v["case"].get("multi") == case.get("multi") and v["case"].get("foreign") == case.get("foreign")]
     bound = case.get("bound", 2)
-    mk = make_world(drv, spec, mode)
+    mk = make_world(drv, spec, mode, exc_on=case.get("exc_on", True))
     first = None
     for ch, got in explore(lambda c: execute(mk, c), bound):
         w, obs = got
